@@ -233,7 +233,7 @@ func c02Unit(j *Job, u *JobUnit) error {
 								ve, derr := decodeViolations(ex.RespBody, "application/json")
 								named := false
 								for _, fl := range violationFields(ve) {
-									if fl == sl.field || fl == sl.param || fl == fd.JSONName() {
+									if fl == sl.field || fl == fd.JSONName() {
 										named = true
 									}
 								}
